@@ -27,6 +27,7 @@ inductive ModeTransport where
 structure Server where
   transport : ModeTransport
   addrs : List (Text × Nat)
+  deriving DecidableEq
 
 /-- `mode.transport_protocol in (data.server.transport_protocol, "both")` -/
 def transportMatches : ModeTransport → Transport → Bool
@@ -144,5 +145,58 @@ def denotesOwnSocket (servers : List Server) (dh : Text) (dp : Nat) (tp : Transp
   servers.any fun s => s.addrs.any fun a =>
     transportMatches s.transport tp && dp == a.2 &&
       (sameHost dh a.1 || (listensOnLoopbackOrAny a.1 && denotesLoopback dh) || denotesUnspecified dh)
+
+/-! ### the listener set as state: `Servers.update` under runtime reconfiguration
+
+`Servers._instances` is a dict mode-spec ↦ server instance.  `update(modes)` keeps the instance of every
+spec that is already present, makes and starts an instance for every new spec, and drops (stops) the rest;
+with `server = False` everything is dropped.  What a newly started instance listens on is the operating
+system's answer (`start`, an environment parameter: empty when the start failed).  Mode specs are
+identified by a key; `configure` has rejected duplicate listen addresses before `update` runs. -/
+
+abbrev State := List (Nat × Server)
+
+/-- the live server instances `server_connect` iterates over (`for server in self.servers`) -/
+def State.live (st : State) : List Server := st.map (·.2)
+
+def lookupKey (l : List (Nat × Server)) (k : Nat) : Option Server :=
+  match l with
+  | [] => none
+  | (k', s) :: rest => if k' == k then some s else lookupKey rest k
+
+/-- `Servers.update(modes)` -/
+def update (st : State) (serverOpt : Bool) (modes : List Nat) (start : List (Nat × Server)) : State :=
+  if serverOpt then
+    modes.map fun k =>
+      match lookupKey st k with
+      | some inst => (k, inst)                                         -- existing instance kept as it is
+      | none => (k, (lookupKey start k).getD ⟨.tcp, []⟩)               -- new instance; no addresses if it failed to start
+  else []
+
+inductive Op where
+  | reconfigure (serverOpt : Bool) (modes : List Nat) (start : List (Nat × Server))
+  | connect (dh : Text) (dp : Nat) (tp : Transport) (connectOk : Bool)
+
+inductive Out where
+  | listeners (st : List (Nat × Server))
+  | trace (evs : List Ev)
+  deriving DecidableEq
+
+def stepState (st : State) : Op → State
+  | .reconfigure so modes start => update st so modes start
+  | .connect _ _ _ _ => st
+
+def stepOut (st : State) : Op → Out
+  | .reconfigure so modes start => .listeners (update st so modes start)
+  | .connect dh dp tp ok => .trace (openTrace st.live dh dp tp ok)
+
+def stateAfter (st : State) : List Op → State
+  | [] => st
+  | op :: ops => stateAfter (stepState st op) ops
+
+/-- the observable of a whole history: one output per operation -/
+def run (st : State) : List Op → List Out
+  | [] => []
+  | op :: ops => stepOut st op :: run (stepState st op) ops
 
 end MitmVerif.C23
